@@ -2,8 +2,9 @@
 Require Extraction.
 Require ExtrOcamlBasic.
 From Coq Require Import ZArith NArith.
-From GV Require Import Marshal.Model Marshal.ModelRefactor.
+From GV Require Import Marshal.Model Marshal.ModelRefactor Marshal.ModelAlloc.
 Extraction Language OCaml.
 Extraction "model.ml" Z.add N.add Nat.add Pos.add
   Model.marshal Model.marshal_cst Model.go_unmarshal Model.load_binary Model.KC
+  ModelAlloc.al_unmarshal
   ModelRefactor.refactor_cst ModelRefactor.refactor_unit ModelRefactor.dump ModelRefactor.dump_unit.
